@@ -37,7 +37,7 @@ def main():
         print("patch does not apply:", out)
         sys.exit(2)
     os.remove(demo_dst)
-    rc1, out1 = sh(f"cargo test --workspace --no-fail-fast --offline --target-dir {tgt} 2>&1 | grep -E '^test result|FAILED|error' ", wt)
+    rc1, out1 = sh(f"cargo test --workspace --no-fail-fast --offline --target-dir {tgt} 2>&1 | grep -E '^test result|FAILED|^error' ", wt)
     suite_ok = "FAILED" not in out1 and "error" not in out1 and "test result: ok" in out1
     shutil.copy(demo, demo_dst)
     rc2, out2 = sh(f"cargo test --offline --target-dir {tgt} -p a2lfile --test {demo_name} 2>&1 | tail -25", wt)
